@@ -459,17 +459,20 @@ func trySkipTrailer(r network.Reader, n int) error {
 
 func skipTrailer(buf []byte) (int, error) {
 	skip := 0
-	strCRLFLen := len(bytestr.StrCRLF)
 	for {
-		index := bytes.Index(buf, bytestr.StrCRLF)
+		// Lines end the way the header scanner of ReadTrailer ends them: at LF, with or without a CR in front.
+		// A trailer section has to end at the same byte whether it is read or skipped: looking for CRLF only, the
+		// skip ran past a section closed by a bare LF and through the head of the next request on the connection.
+		index := bytes.IndexByte(buf, '\n')
 		if index == -1 {
 			return 0, errs.ErrNeedMore
 		}
+		emptyLine := index == 0 || (index == 1 && buf[0] == '\r')
 
-		buf = buf[index+strCRLFLen:]
-		skip += index + strCRLFLen
+		buf = buf[index+1:]
+		skip += index + 1
 
-		if index == 0 {
+		if emptyLine {
 			return skip, nil
 		}
 	}
